@@ -1,15 +1,18 @@
 package main
 
 import (
+	"bytes"
 	"crypto/sha256"
 	"encoding/hex"
 	"encoding/json"
 	"fmt"
 	"os"
 	"os/exec"
+	"runtime"
 	"sort"
 	"strings"
 	"sync"
+	"syscall"
 	"time"
 
 	"github.com/theQRL/go-qrllib/common"
@@ -289,6 +292,21 @@ func c15Table(sc string, seed uint64, rep int) (calls []c15Call) {
 				pk[0], pk[1] = byte(hf), 2
 				add(c15Call{Fn: "xmss.VerifyW", W: w, Args: []string{hx([]byte("m")), hx(sg), hx(pk)}})
 			}
+			// calls the library refuses (each refusal path once): wrong sizes, foreign signature type, odd height,
+			// a Winternitz parameter it does not support
+			rp := rng.Bytes(67)
+			rp[0], rp[1] = byte(hf), 2
+			add(c15Call{Fn: "xmss.Verify", Args: []string{hx([]byte("m")), hx(rng.Bytes(100)), hx(rp)}})
+			add(c15Call{Fn: "xmss.Verify", Args: []string{hx([]byte("m")), hx(rng.Bytes(2180 + 32*40)), hx(rp)}})
+			rp2 := append([]byte(nil), rp...)
+			rp2[0] |= 0x10
+			add(c15Call{Fn: "xmss.Verify", Args: []string{hx([]byte("m")), hx(rng.Bytes(2180 + 32*4)), hx(rp2)}})
+			rp3 := append([]byte(nil), rp...)
+			rp3[1] = 1
+			add(c15Call{Fn: "xmss.Verify", Args: []string{hx([]byte("m")), hx(rng.Bytes(2180 + 32*2)), hx(rp3)}})
+			for _, w := range []uint32{3, 1, 0, 65536, 1 << 31} {
+				add(c15Call{Fn: "xmss.VerifyW", W: w + uint32(hf)*0, Args: []string{hx([]byte("m")), hx(rng.Bytes(2180 + 32*4)), hx(rp)}})
+			}
 		}
 	}
 	addresses := func() {
@@ -323,6 +341,17 @@ func c15Table(sc string, seed uint64, rep int) (calls []c15Call) {
 				add(c15Call{Fn: "dilithium.Verify", Args: []string{hx(m), hx(flipBit(sg[:], rng.Intn(4595*8))), hx(pk[:])}})
 				add(c15Call{Fn: "dilithium.Open", Args: []string{hx(sealed), hx(pk[:])}})
 				add(c15Call{Fn: "dilithium.Open", Args: []string{hx(sealed[:len(sealed)-1]), hx(pk[:])}})
+				// one input per refusal path of the verifier: response out of range, broken hint section, zero signature
+				zbad := append([]byte(nil), sg[:]...)
+				copy(zbad[32+5*rng.Intn(7*128):], []byte{0, 0, 0, 0, 0})
+				hbad := append([]byte(nil), sg[:]...)
+				hbad[hintOff+75+rng.Intn(8)] = 200
+				pbad := append([]byte(nil), sg[:]...)
+				pbad[hintOff+74] = 9
+				for _, bad := range [][]byte{zbad, hbad, pbad, make([]byte, dilSigBytes)} {
+					add(c15Call{Fn: "dilithium.Verify", Args: []string{hx(m), hx(bad), hx(pk[:])}})
+					add(c15Call{Fn: "dilithium.Open", Args: []string{hx(append(append([]byte(nil), bad...), m...)), hx(pk[:])}})
+				}
 			}
 		}
 	}
@@ -434,6 +463,38 @@ func init() {
 	}
 }
 
+// c15Patience: how long a scenario (normally seconds) may take before its goroutines are inspected. Its
+// expiry alone is never a verdict: a violation needs goroutines that are blocked (mutex, channel, select,
+// semaphore) with library frames on their stacks.
+const c15Patience = 8 * time.Minute
+
+func tailStr(s string, n int) string {
+	if len(s) > n {
+		return s[len(s)-n:]
+	}
+	return s
+}
+
+// blockedInLibrary: does a goroutine dump contain a goroutine that is waiting (not running) with
+// go-qrllib frames on its stack?
+func blockedInLibrary(dump string) bool { return libraryFrames(dump) != "" }
+
+func libraryFrames(dump string) string {
+	var out []string
+	for _, g := range strings.Split(dump, "\n\n") {
+		head := g
+		if i := strings.Index(g, "\n"); i > 0 {
+			head = g[:i]
+		}
+		waiting := strings.Contains(head, "[semacquire") || strings.Contains(head, "[sync.Mutex.Lock") || strings.Contains(head, "[chan receive") ||
+			strings.Contains(head, "[chan send") || strings.Contains(head, "[select") || strings.Contains(head, "[sync.RWMutex") || strings.Contains(head, "[sync.Cond.Wait") || strings.Contains(head, "[sync.WaitGroup.Wait")
+		if waiting && strings.Contains(g, "github.com/theQRL/go-qrllib/") {
+			out = append(out, g)
+		}
+	}
+	return strings.Join(out, "\n\n")
+}
+
 type c15Obs struct {
 	g, k, call int
 	got        string
@@ -445,11 +506,33 @@ func c15Run(j *rt.Job, seed uint64, r *rt.Rec) {
 	// 1. the call table and the sequential results come from a fresh single-goroutine process
 	cmd := exec.Command(os.Args[0], "C15ref", sc, fmt.Sprint(seed), fmt.Sprint(rep))
 	cmd.Env = append(os.Environ(), "GORACE=halt_on_error=0 exitcode=0", "GOMAXPROCS=1")
-	raw, err := cmd.Output()
-	if err != nil {
-		r.Inconclusive("reference child failed: " + err.Error())
+	var refOut, refErr bytes.Buffer
+	cmd.Stdout, cmd.Stderr = &refOut, &refErr
+	if err := cmd.Start(); err != nil {
+		r.Inconclusive("reference child failed to start: " + err.Error())
 		return
 	}
+	refDone := make(chan error, 1)
+	go func() { refDone <- cmd.Wait() }()
+	select {
+	case err := <-refDone:
+		if err != nil {
+			r.Inconclusive("reference child failed: " + err.Error() + " " + tailStr(refErr.String(), 400))
+			return
+		}
+	case <-time.After(c15Patience):
+		// a single goroutine making the calls one after the other does not finish: ask it where it is
+		cmd.Process.Signal(syscall.SIGQUIT)
+		<-refDone
+		dump := refErr.String()
+		if blockedInLibrary(dump) {
+			r.Violate("C15/sequential-call-never-returns", "in a single-goroutine process a library call blocks forever after earlier calls (goroutine dump shows it waiting inside the library)", jobCase(j), "returns", tailStr(libraryFrames(dump), 1500))
+		} else {
+			r.Inconclusive("reference child did not finish within the patience limit (no goroutine blocked inside the library)")
+		}
+		return
+	}
+	raw := refOut.Bytes()
 	var calls []c15Call
 	if err := json.Unmarshal(raw, &calls); err != nil || len(calls) == 0 {
 		r.Inconclusive("reference child produced no call table")
@@ -502,7 +585,20 @@ func c15Run(j *rt.Job, seed uint64, r *rt.Rec) {
 		}(g)
 	}
 	close(start)
-	wg.Wait()
+	allDone := make(chan struct{})
+	go func() { wg.Wait(); close(allDone) }()
+	select {
+	case <-allDone:
+	case <-time.After(c15Patience):
+		buf := make([]byte, 1<<22)
+		dump := string(buf[:runtime.Stack(buf, true)])
+		if blockedInLibrary(dump) {
+			r.Violate("C15/calls-never-return", fmt.Sprintf("scenario %s with %d goroutines: calls do not return; goroutines are blocked inside the library (deadlock or lost wake-up)", sc, G), jobCase(j), "all calls return", tailStr(libraryFrames(dump), 1500))
+		} else {
+			r.Inconclusive("scenario did not finish within the patience limit (no goroutine blocked inside the library)")
+		}
+		return
+	}
 	// 4. result monitor (after the run, single goroutine)
 	var all []c15Obs
 	for _, o := range obs {
